@@ -141,3 +141,37 @@ Proof.
   destruct (Nat.eqb m' m) eqn:E1; [|reflexivity]. destruct (Nat.eqb ty' ty) eqn:E2; [|reflexivity].
   apply Nat.eqb_eq in E1. apply Nat.eqb_eq in E2. subst. exfalso. apply Hne. reflexivity.
 Qed.
+
+(* "exactly once" and "no receiver that has unsubscribed": when a receiver is subscribed to (m, ty) at most once at a
+   time (what Receiver objects do: subscribe_ is given a fresh object or one that was unsubscribed), the list of
+   (m, ty) never holds it twice, and unsubscribing removes it *)
+Lemma remove_first_in l r x : In x (remove_first l r) -> In x l.
+Proof.
+  induction l as [|h t IH]; simpl; [intros []|]. destruct (Nat.eqb h r); [intros H; right; exact H|].
+  intros [E|H]; [left; exact E|right; apply IH; exact H].
+Qed.
+
+Lemma remove_first_nodup l r : NoDup l -> NoDup (remove_first l r) /\ ~ In r (remove_first l r).
+Proof.
+  induction l as [|h t IH]; simpl; intros Hn; [split; [constructor|intros []]|].
+  inversion Hn as [|? ? Hh Ht]; subst. destruct (Nat.eqb_spec h r) as [->|Hne]; [split; assumption|].
+  destruct (IH Ht) as [IH1 IH2]. split.
+  - constructor; [|exact IH1]. intros Hin. apply Hh. eapply remove_first_in; eassumption.
+  - intros [E|Hin]; [apply Hne; exact E|apply IH2; exact Hin].
+Qed.
+
+Lemma remove_first_keeps l r x : x <> r -> In x l -> In x (remove_first l r).
+Proof.
+  intros Hne. induction l as [|h t IH]; simpl; [intros []|].
+  destruct (Nat.eqb_spec h r) as [->|Hhr]; intros [E|Hin].
+  - exfalso; apply Hne; symmetry; exact E.
+  - exact Hin.
+  - left; exact E.
+  - right; apply IH; exact Hin.
+Qed.
+
+Lemma sub_fresh_nodup (l : list recv) r : NoDup l -> ~ In r l -> NoDup (l ++ [r]).
+Proof.
+  intros Hn Hr. apply nodup_app_intro; [exact Hn|constructor; [intros []|constructor]|].
+  intros x Hx [E|[]]. subst. apply Hr. exact Hx.
+Qed.
